@@ -1,6 +1,329 @@
-(* C13 - property theorems (stub, replaced below) *)
-From Coq Require Import List NArith ZArith Bool Lia.
-From HV Require Import Gen.Tables Attr.Distances.
-Theorem c13_stub : FIX_NULL_FIRST = false.
-Proof. reflexivity. Qed.
-Print Assumptions c13_stub.
+(* C13 - distances: what is added is what is returned, and it follows the objects.
+   Property theorems only (proofs in Attr/DistancesProofs.v, model in
+   Attr/Distances.v).  All statements are over arbitrary topologies (object
+   tables), object lists, matrices, kind / flag words and list states.
+
+   Three statements are FALSE on the code as it is (FIX_* = false in
+   Attr/Distances.v); each has a [_refuted] witness (replayed on the C code by
+   checks/c13.py, corpus/c13/*.case), a [_partial] theorem under the hypothesis
+   that excludes exactly the failing class, and a [_postfix] theorem about the
+   patched statement (/verif/patches/fix-C13-*.diff). *)
+From Coq Require Import List NArith ZArith Bool Lia Sorting.Sorted.
+From HV Require Import Gen.Tables Attr.Distances Attr.DistancesProofs.
+Import ListNotations.
+
+(* ---------------- the in-place compaction ---------------- *)
+
+(* hwloc_internal_distances_restrict, first loop nest, executed in place in the
+   C order on an nb x nb array: for every vector of NULL / non-NULL objects the
+   first n'*n' cells end up holding exactly the sub-matrix of the ORIGINAL
+   values on the surviving rows and columns (no read sees an overwritten cell) *)
+Theorem restrict_inplace_is_submatrix :
+  forall (keep : list bool) (v : list N),
+  let nb := length keep in
+  let sel := sel_from keep O in
+  let n' := length sel in
+  length v = (nb * nb)%nat ->
+  firstn (n' * n') (restrict_values keep nb (nb - n') v) = submatrix sel nb v.
+Proof. exact restrict_values_submatrix. Qed.
+Print Assumptions restrict_inplace_is_submatrix.
+
+Example restrict_inplace_nonvacuous :
+  firstn 4 (restrict_values [true; false; true] 3 1 [1;2;3;4;5;6;7;8;9]%N) = [1;3;7;9]%N
+  /\ restrict_values [true; false; true] 3 1 [1;2;3;4;5;6;7;8;9]%N = [1;3;7;9;5;6;7;8;9]%N.
+Proof. vm_compute. auto. Qed.
+
+(* the whole function (both loops + the caller's nbobjs -= disappeared): objects,
+   indexes, types and values are exactly the selected ones *)
+Theorem restrict_is_selection :
+  forall (objs : list oref) idx dt v nb,
+  length objs = nb ->
+  (forall l, idx = Some l -> length l = nb) -> (forall l, dt = Some l -> length l = nb) ->
+  length v = (nb * nb)%nat ->
+  let keep := map is_some objs in
+  restrict_all objs idx dt v nb (nb - countb keep) =
+  (pick keep objs, option_map (pick keep) idx, option_map (pick keep) dt, submatrix (sel_from keep O) nb v).
+Proof. exact restrict_all_spec. Qed.
+Print Assumptions restrict_is_selection.
+
+(* ---------------- get ---------------- *)
+
+(* dist_nr_convention + dist_get_filter_exact: for every state, filter and
+   caller array (any size, any content): rc = 0, *nr = number of matching
+   structures whatever the array size, the array holds the first matches in
+   list order and NULL after them *)
+Theorem dist_nr_convention :
+  forall t name ty kind garbage,
+  let t' := refresh t in
+  let ms := filter (matches name ty kind) (t_dists t') in
+  get_core t name ty kind 0 garbage =
+  (t', Ok (length ms, firstn (length garbage) (map pub ms) ++ repeat None (length garbage - length ms))).
+Proof. exact get_core_spec. Qed.
+Print Assumptions dist_nr_convention.
+
+(* the loop's filter is the documented one *)
+Theorem dist_get_filter_exact :
+  forall name ty kind d, matches name ty kind d = true <-> matches_spec name ty kind d.
+Proof. exact matches_iff. Qed.
+Print Assumptions dist_get_filter_exact.
+
+(* nonzero flags: EINVAL and not even a refresh *)
+Theorem dist_get_flags_rejected :
+  forall t name ty kind flags garbage, flags <> 0%N -> get_core t name ty kind flags garbage = (t, Err EINVAL).
+Proof. intros. unfold get_core. destruct (N.eqb_spec flags 0); [congruence|reflexivity]. Qed.
+
+(* by_depth is by_type of the depth's type, EINVAL for a depth without type *)
+Theorem dist_get_by_depth_is_by_type :
+  forall t depth kind garbage,
+  let ty := depth_type (t_levels t) depth in
+  get_by_depth t depth kind 0 garbage = if (ty =? TYPE_NONE)%N then (t, Err EINVAL) else get_by_type t ty kind 0 garbage.
+Proof. intros. unfold get_by_depth, get_by_type. simpl. fold ty. destruct (ty =? TYPE_NONE)%N; reflexivity. Qed.
+
+(* get_by_name: "exactly the structures carrying that name" is false on the
+   current code: the KIND_ALL filter hides kinds without a FROM_* or VALUE_* bit *)
+Definition t_onlylat : topo :=
+  Topo [Obj HWLOC_OBJ_NUMANODE 8 0 false; Obj HWLOC_OBJ_NUMANODE 16 1 false] [HWLOC_OBJ_MACHINE]
+       [IDist (Some [108%N]) 0 HWLOC_DISTANCES_KIND_VALUE_LATENCY HWLOC_OBJ_NUMANODE None 2 [0%N; 1%N]
+              [Some (Obj HWLOC_OBJ_NUMANODE 8 0 false); Some (Obj HWLOC_OBJ_NUMANODE 16 1 false)] [1;2;3;4]%N true] 1.
+
+Theorem dist_get_by_name_refuted :
+  exists t n d, In d (t_dists t) /\ d_valid d = true /\ d_name d = Some n /\ kind_okb (d_kind d) = true /\
+    snd (get_by_name_gen false t (Some n) 0 [None]) = Ok (O, [None]).
+Proof.
+  exists t_onlylat, [108%N]. eexists. split; [left; reflexivity|]. vm_compute. auto.
+Qed.
+
+Theorem dist_get_by_name_partial :
+  forall t n garbage,
+  Forall kind_complete (t_dists (refresh t)) ->
+  get_by_name_gen false t (Some n) 0 garbage =
+  let ms := filter (name_matches (Some n)) (t_dists (refresh t)) in
+  (refresh t, Ok (length ms, firstn (length garbage) (map pub ms) ++ repeat None (length garbage - length ms))).
+Proof.
+  intros t n garbage H. unfold get_by_name_gen. rewrite get_core_spec.
+  rewrite (filter_ext_Forall (matches (Some n) TYPE_NONE HWLOC_DISTANCES_KIND_ALL) (name_matches (Some n))).
+  - reflexivity.
+  - eapply Forall_impl; [|exact H]. intros d Hd. apply by_name_matches; auto.
+Qed.
+Print Assumptions dist_get_by_name_partial.
+
+Example kind_complete_nonvacuous : kind_complete (IDist None 0 6 0 None 0 [] [] [] true).
+Proof. split; vm_compute; discriminate. Qed.
+
+Theorem dist_get_by_name_postfix :
+  forall t n garbage,
+  get_by_name_gen true t (Some n) 0 garbage =
+  (let ms := filter (name_matches (Some n)) (t_dists (refresh t)) in
+   (refresh t, Ok (length ms, firstn (length garbage) (map pub ms) ++ repeat None (length garbage - length ms))))
+  /\ forall d, name_matches (Some n) d = true <-> d_name d = Some n.
+Proof. intros. split; [apply get_core_spec|apply name_matches_spec]. Qed.
+
+(* ---------------- add ---------------- *)
+
+(* dist_add_get: for every state whose ids are below next_dist_id, every name,
+   valid kind word, valid commit flags, >= 2 non-NULL objects (any types) and
+   matrix: the add succeeds, appends one structure, and get returns it last
+   with the same name, objects, values and kind | HETEROGENEOUS_TYPES iff the
+   object types differ *)
+Theorem dist_add_get :
+  forall t name kind commitflags (objs : list obj) values garbage,
+  kind_okb kind = true -> cflags_okb commitflags = true ->
+  (2 <= length objs)%nat -> length values = (length objs * length objs)%nat ->
+  Forall (fun o => o_type o <> TYPE_NONE) objs ->
+  Forall (fun d => d_id d <> t_next_id t) (t_dists t) ->
+  exists t',
+    add_full t name kind 0 (length objs) (map Some objs) values 0 commitflags = (t', Ok tt) /\
+    let pd := PDist (t_next_id t) (length objs) (map Some objs)
+                    (if all_same_type objs then kind else N.lor kind HWLOC_DISTANCES_KIND_HETEROGENEOUS_TYPES) values in
+    exists pre,
+      get_all t' 0 0 garbage =
+      (refresh t', Ok (S (length pre), firstn (length garbage) (pre ++ [Some pd]) ++ repeat None (length garbage - S (length pre))))
+      /\ get_name (refresh t') pd = name.
+Proof. intros. apply add_then_get; auto. Qed.
+Print Assumptions dist_add_get.
+
+Example dist_add_get_nonvacuous :
+  kind_okb 6 = true /\ cflags_okb 1 = true /\ kind_okb 0 = true /\ kind_okb 7 = false /\ kind_okb 12 = false /\ kind_okb 64 = false.
+Proof. vm_compute. auto 10. Qed.
+
+(* every kind word of 64 bits: accepted iff no unknown bit, at most one FROM_*, at most one VALUE_* *)
+Theorem dist_create_kind_validation :
+  forall t name kind, kind_okb kind = false -> add_create t name kind 0 = (t, Err EINVAL).
+Proof.
+  intros t name kind H. unfold add_create. unfold kind_okb in H.
+  destruct (N.land kind _ =? 0)%N; simpl in *; auto.
+  destruct (1 <? weight (N.land kind HWLOC_DISTANCES_KIND_FROM_ALL))%nat; simpl in *; auto.
+  destruct (1 <? weight (N.land kind HWLOC_DISTANCES_KIND_VALUE_ALL))%nat; simpl in *; auto. discriminate.
+Qed.
+
+(* a rejected add (whatever the reason) leaves the list and the objects unchanged *)
+Theorem dist_reject_unchanged :
+  forall t name kind cflags nb objs values vflags commitflags t' e,
+  add_full t name kind cflags nb objs values vflags commitflags = (t', Err e) ->
+  t_dists t' = t_dists t /\ t_objs t' = t_objs t.
+Proof. intros until e. apply add_full_err_unchanged. Qed.
+Print Assumptions dist_reject_unchanged.
+
+(* dist_reject_identity (every invalid add is rejected) is false on the current
+   code: objs[0] == NULL passes the scan that starts at i = 1 *)
+Definition o_core1 : obj := Obj HWLOC_OBJ_CORE 7 1 false.
+Theorem dist_reject_identity_refuted :
+  exists t name kind nb objs values,
+    invalid_add kind 0 nb objs 0 0 /\
+    exists t' d, add_full_gen false t name kind 0 nb objs values 0 0 = (t', Ok tt) /\
+                 t_dists t' = t_dists t ++ [d] /\ d_nb d = 1%nat.
+Proof.
+  exists (Topo [o_core1] [] [] 0), None, 6%N, 2%nat, [None; Some o_core1], [1;2;3;4]%N.
+  split; [right; right; right; right; left; reflexivity|].
+  eexists. eexists. split; [vm_compute; reflexivity|]. split; vm_compute; reflexivity.
+Qed.
+
+Theorem dist_reject_identity_partial :
+  forall t name kind cflags nb (objs : list oref) values vflags commitflags,
+  invalid_add_but_null_first kind cflags nb objs vflags commitflags ->
+  exists t' e, add_full_gen false t name kind cflags nb objs values vflags commitflags = (t', Err e) /\
+               t_dists t' = t_dists t.
+Proof. intros. apply add_full_rejects_gen. exact H. Qed.
+Print Assumptions dist_reject_identity_partial.
+
+Example invalid_but_null_first_nonvacuous :
+  invalid_add_but_null_first 6 0 3 [Some o_core1; None; Some o_core1] 0 0.
+Proof. right; right; right; right; left. reflexivity. Qed.
+
+Theorem dist_reject_identity_postfix :
+  forall t name kind cflags nb (objs : list oref) values vflags commitflags,
+  invalid_add kind cflags nb objs vflags commitflags ->
+  exists t' e, add_full_gen true t name kind cflags nb objs values vflags commitflags = (t', Err e) /\
+               t_dists t' = t_dists t.
+Proof. intros. apply add_full_rejects_gen. exact H. Qed.
+Print Assumptions dist_reject_identity_postfix.
+
+(* the model in force is the current code *)
+Theorem model_follows_current_source :
+  FIX_NULL_FIRST = false /\ FIX_MERGE_PORTS = false /\ FIX_BY_NAME_KIND = false.
+Proof. auto. Qed.
+
+(* ---------------- follow the objects ---------------- *)
+
+(* after the topology changed (restrict, dup, XML import: cached objects
+   invalid), for every structure and every new object table: the objects are
+   looked up again; the result references live objects only, is dropped iff
+   fewer than 2 are found, is unchanged if all are found and otherwise holds
+   the exact sub-matrix / selected indexes / selected types *)
+Theorem dist_follow_objects :
+  forall tobjs d,
+  d_valid d = false -> wf_idist d ->
+  let nb := d_nb d in
+  let objs := lookup_all tobjs (d_unique d) (d_diff d) O (d_indexes d) in
+  let keep := map is_some objs in
+  Forall (fun r => forall o, r = Some o -> In o tobjs) objs /\
+  ((countb keep < 2)%nat -> refresh_one tobjs d = None) /\
+  (countb keep = nb -> (2 <= nb)%nat ->
+     refresh_one tobjs d = Some (IDist (d_name d) (d_id d) (d_kind d) (d_unique d) (d_diff d) nb (d_indexes d) objs (d_values d) true)) /\
+  ((2 <= countb keep)%nat -> (countb keep < nb)%nat ->
+     refresh_one tobjs d = Some (IDist (d_name d) (d_id d) (d_kind d) (d_unique d) (option_map (pick keep) (d_diff d))
+                                       (countb keep) (pick keep (d_indexes d)) (pick keep objs)
+                                       (submatrix (sel_from keep O) nb (d_values d)) true)
+     /\ Forall (fun r => exists o, r = Some o /\ In o tobjs) (pick keep objs)).
+Proof. exact refresh_one_follow. Qed.
+Print Assumptions dist_follow_objects.
+
+(* what "looked up again" finds: the object with the same type and os_index
+   (PU, NUMA node) or the same type and gp_index *)
+Theorem dist_lookup_sound :
+  forall tobjs unique dt i idx o,
+  lookup tobjs unique dt i idx = Some o ->
+  In o tobjs /\
+  (if use_os_index unique then o_type o = unique /\ o_os o = (idx mod two32)%N
+   else o_type o = match dt with Some l => nth i l TYPE_NONE | None => unique end /\ o_gp o = idx).
+Proof. exact lookup_sound. Qed.
+
+Theorem dist_refresh_list :
+  forall tobjs ds,
+  refresh_list tobjs ds = flat_map (fun d => match refresh_one tobjs d with Some d' => [d'] | None => [] end) ds
+  /\ Forall (fun d => d_valid d = true) (refresh_list tobjs ds).
+Proof. intros. split; [apply refresh_list_spec|apply refresh_all_valid]. Qed.
+
+Theorem dist_dup_keeps_identity :
+  forall d, wf_idist d ->
+  wf_idist (dup_one d) /\ d_valid (dup_one d) = false /\ d_id (dup_one d) = d_id d /\
+  d_indexes (dup_one d) = d_indexes d /\ d_values (dup_one d) = d_values d.
+Proof. intros d H. destruct (dup_one_wf d H) as (A & B & C). destruct (dup_one_invalid d) as (D & E & _). auto. Qed.
+
+Example dist_follow_nonvacuous :
+  let d := IDist None 3 6 HWLOC_OBJ_CORE None 3 [4;7;12]%N [] [1;2;3;4;5;6;7;8;9]%N false in
+  wf_idist d /\
+  refresh_one [Obj HWLOC_OBJ_CORE 4 0 false; Obj HWLOC_OBJ_CORE 12 2 false] d =
+  Some (IDist None 3 6 HWLOC_OBJ_CORE None 2 [4;12]%N
+             [Some (Obj HWLOC_OBJ_CORE 4 0 false); Some (Obj HWLOC_OBJ_CORE 12 2 false)] [1;3;7;9]%N true).
+Proof. split; [repeat split; intros; discriminate|vm_compute; reflexivity]. Qed.
+
+(* ---------------- removals ---------------- *)
+Theorem dist_remove_exact :
+  forall t p,
+  match from_public t (p_id p) with
+  | None => release_remove t p = (t, Err EINVAL)
+  | Some d => exists a b, t_dists t = a ++ d :: b /\ Forall (fun x => d_id x <> p_id p) a /\ d_id d = p_id p /\
+                          release_remove t p = (set_dists t (a ++ b), Ok tt)
+  end.
+Proof. exact release_remove_exact. Qed.
+Print Assumptions dist_remove_exact.
+
+Theorem dist_remove_by_depth_exact :
+  forall t depth,
+  let ty := depth_type (t_levels t) depth in
+  if (ty =? TYPE_NONE)%N then remove_by_depth t depth = (t, Err EINVAL)
+  else exists ds, remove_by_depth t depth = (set_dists t ds, Ok tt) /\
+                  ds = filter (fun d => negb (d_unique d =? ty)%N) (t_dists t) /\
+                  forall d, In d ds <-> In d (t_dists t) /\ d_unique d <> ty.
+Proof. exact remove_by_depth_exact. Qed.
+
+Theorem dist_remove_all : forall t, t_dists (fst (remove_all t)) = [] /\ snd (remove_all t) = Ok tt.
+Proof. intros; split; reflexivity. Qed.
+
+(* ---------------- transforms ---------------- *)
+Theorem transform_remove_null :
+  forall p, wf_pdist p ->
+  let keep := map is_some (p_objs p) in
+  let c := countb keep in
+  ((c < 2)%nat -> transform_remove_null p = (p, Err EINVAL)) /\
+  (c = p_nb p -> (2 <= c)%nat -> transform_remove_null p = (p, Ok tt)) /\
+  ((2 <= c)%nat -> (c < p_nb p)%nat ->
+     transform_remove_null p =
+     (PDist (p_id p) c (filter is_some (p_objs p)) (hetero_kind (filter is_some (p_objs p)) (p_kind p))
+            (submatrix (sel_from keep O) (p_nb p) (p_values p)), Ok tt)).
+Proof. exact transform_remove_null_spec. Qed.
+Print Assumptions transform_remove_null.
+
+(* MERGE_SWITCH_PORTS keeps every non-port object: false on the current code *)
+Definition o_gpu (g : N) : obj := Obj HWLOC_OBJ_CORE g 0 false.
+Definition o_port (g : N) : obj := Obj HWLOC_OBJ_CORE g 0 true.
+Theorem transform_merge_ports_keeps_nonports_refuted :
+  exists p j o, wf_pdist p /\ nth j (p_objs p) None = Some o /\ o_nvs o = false /\
+    exists p', transform_merge_switch_ports_gen false p = (p', Ok tt) /\ ~ In (Some o) (p_objs p').
+Proof.
+  exists (PDist 0 3 [Some (o_gpu 3); Some (o_port 5); Some (o_gpu 7)] 10 [0;1;2;3;4;5;6;7;8]%N), 2%nat, (o_gpu 7).
+  split; [split; reflexivity|]. split; [reflexivity|]. split; [reflexivity|].
+  eexists. split; [vm_compute; reflexivity|].
+  simpl. intros [H|[H|H]]; try discriminate; auto.
+Qed.
+
+(* partial: objects listed before the first port (positions the loop does not visit) are kept *)
+Theorem transform_merge_ports_keeps_nonports_partial :
+  forall js nb i (objs : list oref) v j,
+  ~ In j js -> nth j (fst (merge_loop false js nb i objs v)) None = nth j objs None.
+Proof. intros. apply merge_loop_untouched; auto. Qed.
+
+(* ... and what the current loop does to every position after the first port *)
+Theorem transform_merge_ports_current_drops_all :
+  forall js nb i (objs : list oref) v j,
+  In j js -> (j < length objs)%nat -> nth j (fst (merge_loop false js nb i objs v)) None = None.
+Proof. exact merge_current_drops. Qed.
+
+Theorem transform_merge_ports_keeps_nonports_postfix :
+  forall js nb i (objs : list oref) v j,
+  (forall j', In j' js -> (i < j')%nat) ->
+  is_nvswitch (nth j objs None) = false ->
+  nth j (fst (merge_loop true js nb i objs v)) None = nth j objs None.
+Proof. exact merge_fixed_keeps_nonports. Qed.
+Print Assumptions transform_merge_ports_keeps_nonports_postfix.
